@@ -920,9 +920,10 @@ class Engine:
             for pid in list(self.probes):
                 rec = self.probes[pid]
                 got = ob["got"].get(pid, [])
-                if self.sc.get("relax_inflight") and got:
+                if self.sc.get("relax_inflight") and (got or rec.stages):
                     uidx, uvals = self.inflight_unspecified(rec, ob["lo"], ob["hi"])
                     if uvals:
+                        rec.inflight_seen = True  # its late stages may hear from that generator too
                         self.sim.reach("inflight_generator_events_unspecified", len(uvals))
                         fas = [sl["focus"].get("as") or sl["focus"]["var"] for sl in rec.spec["sels"] if sl.get("focus")]
                         got = [g for g in got if not any(g.get(k) in uvals for k in fas)]
@@ -1085,6 +1086,8 @@ class Engine:
                 # a stage attached after deactivation may be *completed* by a later, redundant
                 # deactivate() (an empty reduction then publishes its neutral value or errors);
                 # what it must never get is data caused by calls
+                if getattr(rec, "inflight_seen", False):
+                    continue  # a generator in flight across the deactivation still carries this probe's handlers (unspecified)
                 if st.get("post") and st["next"] and not (st["kind"] == "count" and st["next"] == [0]):
                     self.violate(
                         "C17.silent_outside",
